@@ -32,14 +32,15 @@ CHECKS["C01"] = dict(
     category="proof",
     text="Lean 4 theorems: the plan produced by the model of SQLGenerator.generate for a single-model query (one CTE + aggregating SELECT) equals, for EVERY table content, "
          "the reference semantics (filter, group by dimension values, aggregate each metric's expression over its group and own filters): fusion theorem body_fuse + "
-         "Spec.grouped_eq_flat + decidable coverage predicate evaluated per case; column naming theorem; slice theorem; proved counterexample for limit=0. "
+         "Spec.grouped_eq_flat + decidable coverage predicate evaluated per case; column naming theorem; slice theorem; whole-result theorem C01_grouped_result (HAVING translation of metric-value filters, "
+         "ORDER BY, OFFSET, LIMIT = Spec.finish, via havingOf_eval by induction over the filter tree); ungrouped branch C01_ungrouped (body_fuse_raw + ungrouped_eq_flatRaw); regression example for limit=0. "
          "Model tied to /repo by structural (sqlglot normal form of compile() text == printed plan) and behavioural (DuckDB rows == Plan.eval) correspondence on generated triples; "
          "real rows are compared with the Lean spec on every case; a broken correspondence triggers a directed search over adversarial tables.",
     design_ref="DESIGN.md §4 C01",
     note="Also searched on the real code: measures declared only as SQL text AGG(expr) over engine operators vs that text evaluated directly. Trusted: Lean kernel + standard axioms; hand-written Sql semantics (validated against DuckDB per case, not proved); genSingle transcription (tied by differential testing); "
-         "ungrouped branch, ORDER BY total-preorder property and metric-value (HAVING) filters are covered by correspondence + spec comparison only; data hypothesis PkOK (key expression non-NULL and injective). "
+         "coverage is a decidable per-case hypothesis (evidence counts the cases inside each theorem and why the rest are outside); plans with an outer WHERE and the order among rows tying on every sort key are covered by correspondence + spec comparison only; data hypothesis PkOK (key expression non-NULL and injective). "
          "Known findings F1/F20/F21 listed in known_findings.json.",
-    technique="Lean 4 proof (fusion of CTE projection into aggregation, all table contents) + structural/behavioural correspondence + spec oracle",
+    technique="Lean 4 proof (fusion of CTE projection into aggregation / projection, HAVING translation, whole result incl. ORDER BY/LIMIT; all table contents) + structural/behavioural correspondence + spec oracle",
 )
 
 CHECKS["C07"] = dict(
@@ -185,7 +186,7 @@ CHECKS["C13"] = dict(
          "(one theorem per YAML format, suffix-only formats by decide); detection is file-local; merge of parsed files is order-independent for distinct model names. "
          "Tie: original if/elif chain executed on synthetic contents vs the Lean cascade; every exporter's real output checked against its signature; the translator refuses a loop body that does not reset the adapter per file (file-locality of the model); load_from_directory on directories of 1-8 exporter outputs (nested, disjoint names) plus files no branch recognises, in the file system's and 3 permuted enumeration orders (equal results, no model that no file's own adapter extracts), and a deterministic per-exporter battery vs adapter.parse per file.",
     design_ref="DESIGN.md §4 C13",
-    note="A relationship probe checks that inference adds no second relationship to a declared target. The signatures are validated on generated exporter output, not proved about the exporters. Known findings: substring probes inside user text (F12), SML short-circuit (F12), metric-less models in Superset/Hex/Omni/BSL (F24). Superset mis-detection fixed in /repo (4b0b0f5). Python-file execution path not modelled.",
+    note="The translator also demands that each content branch reads the whole file (content = file_path.read_text()); every exporter is also loaded alone with a 400-dimension model (50-150 KB files). A relationship probe checks that inference adds no second relationship to a declared target. The signatures are validated on generated exporter output, not proved about the exporters. Known findings: substring probes inside user text (F12), SML short-circuit (F12), metric-less models in Superset/Hex/Omni/BSL (F24). Superset mis-detection fixed in /repo (4b0b0f5). Python-file execution path not modelled.",
     technique="Lean 4 proof (simp over translator-regenerated decision list) + chain-vs-model correspondence + directory loading oracle",
 )
 
